@@ -4,9 +4,21 @@ import (
 	"bytes"
 	"errors"
 
+	ipfslog "berty.tech/go-ipfs-log"
+	"berty.tech/go-ipfs-log/entry/sorting"
 	ipliface "berty.tech/go-ipfs-log/iface"
 	"berty.tech/weshnet/v2/pkg/errcode"
 )
+
+// sortedLogEntries returns the entries of a log oldest first in its deterministic order
+// (clock time, clock id, hash). The entry map of a log keeps the order in which entries
+// were appended, loaded or replicated, which differs between replicas and across restarts.
+func sortedLogEntries(log ipfslog.Log) []ipliface.IPFSLogEntry {
+	entries := log.GetEntries().Slice()
+	sorting.Sort(sorting.SortByEntryHash, entries, false)
+
+	return entries
+}
 
 func getEntriesInRange(entries []ipliface.IPFSLogEntry, since, until []byte) ([]ipliface.IPFSLogEntry, error) {
 	var (
